@@ -299,8 +299,11 @@ def generate_class_level(ctx):
 
     class BadZipFile(Exception):
         pass
+    # np.load contract (DESIGN 3.2, widened after finding F17): an unreadable entry raises SOME exception at load or member
+    # access -- OSError/ValueError/EOFError/KeyError/BadZipFile for truncations, NotImplementedError or RuntimeError for
+    # a damaged archive directory (mangled version / compression / flag fields)
     EXC = {"OSError": OSError, "ValueError": ValueError, "EOFError": EOFError, "KeyError": KeyError,
-           "BadZipFile": BadZipFile}
+           "BadZipFile": BadZipFile, "NotImplementedError": NotImplementedError, "RuntimeError": RuntimeError}
 
     class FS:
         pass
@@ -316,6 +319,16 @@ def generate_class_level(ctx):
         fs.state = entry_state
 
         class Npz:
+            # NpzFile is a context manager (closing the archive); entering / leaving it reads nothing
+            def __enter__(self):
+                return self
+
+            def __exit__(self, *a):
+                return False
+
+            def close(self):
+                return None
+
             def __getitem__(self, k):
                 if entry_state == "corrupt":
                     # any member access of an unreadable entry may raise any listed exception
@@ -396,7 +409,9 @@ def generate_class_level(ctx):
             run.scope = "cache.GreensFunctionCache.get[%s]" % state
             ka = key_inputs(run)
             c = cls("dir")
-            out = harness.call(run, c.get, *[ka[a] for a in ARGS], raises=(Exception,))
+            # the classes the np.load contract may raise are named explicitly: NotImplementedError from the stub is behaviour
+            # of the library under its contract here, not a modelling gap
+            out = harness.call(run, c.get, *[ka[a] for a in ARGS], raises=(Exception, NotImplementedError, RuntimeError))
             if out.raised:
                 run.oblige("xpost.never-raises[%s]" % type(out.exc).__name__, SBool(False), kind="xpost",
                            meta={"exception": repr(out.exc)})
